@@ -53,8 +53,10 @@ where
     for i in 0..n {
         let k = (i + 1) as u64;
         let exact = d(c[i + 1]).mul_u64(k);
-        if !exact.is_zero() && exact.top() > 1023 {
-            overflow = true; // (i+1)c overflows: out of domain for this coefficient
+        if exact.to_f64().is_infinite() {
+            // (i+1)c overflows under round-to-nearest (this includes exact products between MAX + half an ulp
+            // and 2^1024, whose correctly rounded value IS infinity): out of domain for this coefficient
+            overflow = true;
             continue;
         }
         ctx.comparisons += 1;
@@ -146,15 +148,21 @@ impl Prop for C08 {
         "C08"
     }
     fn rule(&self) -> String {
-        "case = (degree 0..=8 uniform, coefficient vector over every finite class (full exponent range, ±0, subnormals, ±MAX, negative, fractional), evaluation point, 0..=12 breakpoints from the lattice generator (duplicates, ±inf, ±0); piece j of the piecewise function uses the coefficient vector rotated by j). Oracle: coefficient i of derivative() within one ulp of the exact (i+1)·c_(i+1) and bit-exact for factors 1,2,4,8 (products that overflow are skipped and labelled); Poly0 -> 0; derivative().evaluate(x) within the C01 bound (+1u for the coefficient rounding) of the exact p'(x) when all terms lie within 2^±900; Segment/Piecewise derivative: same count, same order, every end bit-identical, every piece bit-identical to differentiating that piece alone. Non-trivial: (degree>=2 and some coefficient negative or non-integer) or >=2 pieces.".into()
+        "case = (degree 0..=8 uniform, coefficient vector over every finite class (full exponent range, ±0, subnormals, ±MAX, negative, fractional), evaluation point, 0..=12 breakpoints from the lattice generator (duplicates, ±inf, ±0; 1 in 10 up to 40; 1 in 8 in arbitrary, unsorted order; 1 case in 9 has a constant coefficient vector, i.e. identical pieces); piece j of the piecewise function uses the coefficient vector rotated by j). Oracle: coefficient i of derivative() within one ulp of the exact (i+1)·c_(i+1) and bit-exact for factors 1,2,4,8 (products that overflow are skipped and labelled); Poly0 -> 0; derivative().evaluate(x) within the C01 bound (+1u for the coefficient rounding) of the exact p'(x) when all terms lie within 2^±900; Segment/Piecewise derivative: same count, same order, every end bit-identical, every piece bit-identical to differentiating that piece alone. Non-trivial: (degree>=2 and some coefficient negative or non-integer) or >=2 pieces.".into()
     }
     fn cases(&self, tier: Tier) -> u64 {
         tier.pick(1_000_000, 15_000_000)
     }
     fn strategy(&self, _tier: Tier) -> BoxedStrategy<Case> {
-        let cs = prop_oneof![2 => vec(gen::any_finite(), 9), 1 => gen::coeffs(9, 100), 1 => gen::distinct_numbers(9)];
+        let cs = prop_oneof![4 => vec(gen::any_finite(), 9), 2 => gen::coeffs(9, 100), 2 => gen::distinct_numbers(9), 1 => gen::any_finite().prop_map(|c| vec![c; 9])];
         let xs = prop_oneof![3 => gen::moderate(40), 1 => gen::any_finite()];
-        let ends = prop_oneof![1 => Just(Vec::new()), 6 => gen::ends(12, false)];
+        // breakpoints: usually a well-formed (sorted) list; 1 in 8 in arbitrary order - differentiation must keep
+        // number, order and every breakpoint of ANY list of pieces
+        let ends = prop_oneof![
+            1 => Just(Vec::new()),
+            6 => gen::ends_long(12, 40, false),
+            1 => (gen::ends(12, false), any::<u64>()).prop_map(|(mut e, r)| { let n = e.len(); for i in 0..n { e.swap(i, ((r >> (i % 48)) as usize + i * 7) % n); } e }),
+        ];
         (0u8..9, cs, xs, ends)
             .prop_map(|(deg, c, x, ends)| Case { deg, c: c[..deg as usize + 1].iter().map(|&v| B(v)).collect(), x: B(x), ends: ends.into_iter().map(B).collect() })
             .boxed()
